@@ -59,8 +59,8 @@ def strategy(tier):
     return project_strategy(
         calls_per_op=1, mixins=True, config_fn=_config,
         doc_kw={"n_ops": (1, 3), "n_frags": (0, 5)},
-        ops_kw={"var_p": 0.35, "frag_p": 0.6},
-        schema_kw={"defaults": 0.1},
+        ops_kw={"var_p": 0.35, "frag_p": 0.6, "local_var_names": True},
+        schema_kw={"defaults": 0.1}, subscriptions_if_async=True,
     )
 
 
@@ -235,9 +235,7 @@ def run_case(case, scratch):
         or "op.mixin_field" in feats or "op.mixin_fragment" in feats
     extract = EXTRACT in (case["config"].get("plugins") or [])
     for call in case["calls"]:
-        if sess.ops[call["op"]]["kind"] == "subscription":
-            continue
-        r = sess.call(call)
+        r = sess.call(call)  # subscriptions: the subscribe payload of a scripted websocket stands for the body
         units += 1
         if r["problem"]:
             if r["problem"]["clause"] != "argument_build":
@@ -265,7 +263,7 @@ def run_case(case, scratch):
         if nt_case:
             nts.append(hashlib.sha256((case["queries"] + call["op"]).encode()).hexdigest()[:16])
             if sample is None:
-                sample = {"operation": call["op"], "authored": case["queries"][:700], "sent": body.get("query", "")[:700]}
+                sample = {"operation": call["op"], "authored": case["queries"][:700], "sent": str(body.get("query", ""))[:700]}
     seen, out = set(), []
     for f in failures:
         k = (f["clause"], f["sig"])
